@@ -402,6 +402,8 @@ def run(ctx):
     only_neighbors(ctx, res)
     from rules import hist
     hist.run(ctx, res, 'C05')       # composition: histories through the public API against the reference model (rules/hist.py)
+    from rules import scale
+    scale.run(ctx, res, 'C05')      # the same on graphs whose collections have the sizes the tree names (rules/scale.py)
     hist.run_sequences(ctx, res, "C05", "links", 4 if ctx.thorough else 3)      # incl. switching the flag and reading between the calls
     common.vacuity(res, "SEQUENCE", 20000)
     common.vacuity(res, "HISTORY", 14000)
